@@ -19,7 +19,7 @@ import cv2
 from openfilter.filter_runtime import frame as frame_mod
 from openfilter.filter_runtime.frame import Frame
 
-IMPORTS = 'From OF Require Import Frame.Heap Frame.FrameOps.'
+IMPORTS = 'From Coq Require Import Uint63.\nFrom OF Require Import Frame.Heap Frame.FrameOps.'
 FMT_CODE = {'GRAY': 0, 'BGR': 1, 'RGB': 2}
 VIEW_OPS = ['copy', 'rw', 'ro', 'rgb', 'bgr', 'gray', 'rw_rgb', 'rw_bgr', 'ro_rgb', 'ro_bgr', 'image', 'jpg', 'pickle']
 OP_CTOR = {'copy': 'OCopy', 'rw': 'ORw', 'ro': 'ORo', 'rgb': 'ORgb', 'bgr': 'OBgr', 'gray': 'OGray', 'rw_rgb': 'ORwRgb',
@@ -30,14 +30,15 @@ JPEG_TOL = 12
 def lum(r, g, b):
     return (r * 9798 + g * 19235 + b * 3735 + 16384) >> 15
 
-def std_enc_bytes(img):
+def std_enc_bytes(img, png=False):
     h, w = img.shape[:2]
     c = 1 if img.ndim == 2 else 3
-    return bytes([255, 216, h // 256, h % 256, w // 256, w % 256, c]) + np.ascontiguousarray(img).tobytes()
+    return bytes([137, 80] if png else [255, 216]) + bytes([h // 256, h % 256, w // 256, w % 256, c]) + \
+        np.ascontiguousarray(img).tobytes()
 
 def std_dec_array(buf, want):
     b = bytes(buf)
-    if len(b) < 7 or b[0] != 255 or b[1] != 216:
+    if len(b) < 7 or (b[0], b[1]) not in ((255, 216), (137, 80)):
         return None
     h, w, c = b[2] * 256 + b[3], b[4] * 256 + b[5], b[6]
     p = np.frombuffer(b[7:], np.uint8)
@@ -100,6 +101,10 @@ def enc_json(x):
         return ['l', [enc_json(v) for v in x]]
     return ['d', [[k, enc_json(v)] for k, v in x.items()]]
 
+def strz(t):
+    """python str -> Gallina list Z of code points, written with fast uint63 literals"""
+    return '(zs [' + ';'.join(str(ord(ch)) for ch in t) + ']%uint63)'
+
 def json_lit(x):
     if x is None:
         return 'JNull'
@@ -108,17 +113,20 @@ def json_lit(x):
     if isinstance(x, int):
         return '(JInt %s%%Z)' % zl(x)
     if isinstance(x, float):
-        return '(JFloat %s%%Z)' % strl(repr(x))
+        return '(JFloat %s)' % strz(repr(x))
     if isinstance(x, str):
-        return '(JStr %s%%Z)' % strl(x)
+        return '(JStr %s)' % strz(x)
     if isinstance(x, (list, tuple)):
         return '(JList %s)' % listl(json_lit(v) for v in x)
-    return '(JDict %s)' % listl('(%s%%Z, %s)' % (strl(k), json_lit(v)) for k, v in x.items())
+    return '(JDict %s)' % listl('(%s, %s)' % (strz(k), json_lit(v)) for k, v in x.items())
 
 def natl(n):
     return '%d%%nat' % n
 def bytesl(b):
-    return '[' + ';'.join(str(int(x)) for x in b) + ']%Z'
+    # uint63 literals are read ~100x faster than Z literals; FrameOps.zs converts
+    return '(zs [' + ';'.join(str(int(x)) for x in b) + ']%uint63)'
+def intsl(xs):
+    return '[' + ';'.join(str(int(x)) for x in xs) + ']%uint63'
 
 # ------------------------------------------------------------------ independent pixel conversions for the oracle
 def conv(src, dst, img):
@@ -208,9 +216,9 @@ class Sim:
                 lit = '(OFrameFrame %s %s %s)' % (natl(s), self.darg_lit(d), self.farg_lit(fa))
             elif kind == 'from_jpg':
                 _, spec, d, dims, fm = op
-                if spec[0] == 'enc':
-                    src = self.arrays[spec[1]]
-                    blob = std_enc_bytes(src) if not self.real else bytes(cv2.imencode('.jpg', src)[1])
+                if spec[0] in ('enc', 'encpng'):
+                    src, png = self.arrays[spec[1]], spec[0] == 'encpng'
+                    blob = std_enc_bytes(src, png) if not self.real else bytes(cv2.imencode('.png' if png else '.jpg', src)[1])
                 else:
                     blob = bytes(spec[1])
                 lit = '(OFromJpg %s %s %s %s)' % (bytesl(blob), optl(d, json_lit),
@@ -472,6 +480,10 @@ def random_seq(seed, maxlen):
         elif r < 0.23:
             root = sim.frames[0]
             op = ['from_jpg', ['enc', 0], None, [root.height + 1, root.width], root.format]          # wrong declared size
+        elif r < 0.27:
+            root = sim.frames[0]                                                                      # not a jpg: decoded at once, writable
+            op = ['from_jpg', ['encpng', 0], rng.choice([None, {'png': True}]),
+                  rng.choice([None, [root.height, root.width], [root.height, root.width + 1]]), root.format]
         else:
             op = rng.choice(al)
             if op[0] == 'poke' and smooth_px:
@@ -563,16 +575,17 @@ def main():
                     run.count('op:%s' % l['op'][0])
                     run.count('exhaustive:frames=%d arrays=%d' % (l['nfr'], l['narr']))
                     run.seen((family, full), nontrivial=True)
-                lit = pairl(b['lit'], listl(l['lit'] for l in b['lasts']))
-                cases.append((lit, [b['digests'], [l['digest'] for l in b['lasts']]],
-                              dict(ops=b['ops'], lasts=[l['op'] for l in b['lasts']])))
+                lit = pairl(pairl(b['lit'], listl(l['lit'] for l in b['lasts'])),
+                            pairl(intsl(b['digests']), intsl(l['digest'] for l in b['lasts'])))
+                cases.append((lit, [[], []], dict(ops=b['ops'], lasts=[l['op'] for l in b['lasts']])))
         k += njobs
-        bad = run.model_disagree(family, IMPORTS, 'run_c10_fan', 'list op * list op', cases, shard=150)
+        FAN = '(list op * list op) * (list int * list int)'
+        bad = run.model_disagree(family, IMPORTS, 'run_c10_fan_chk', FAN, cases, shard=450)
         if bad:
-            explain(family, 'run_c10_fan_pinned', 'list op * list op', cases, bad, 150)
+            explain(family, 'run_c10_fan_pinned_chk', FAN, cases, bad, 450)
         if cases:
             c = cases[len(cases) // 2]
-            run.samples.append(dict(family=family, ops=c[2]['ops'], last_alternatives=len(c[2]['lasts']), digests=c[1][0]))
+            run.samples.append(dict(family=family, ops=c[2]['ops'], last_alternatives=len(c[2]['lasts'])))
 
     cases = []
     for r in rd:
@@ -583,11 +596,11 @@ def main():
             run.count('op:%s' % kind)
         run.count('random:frames=%d' % (r['nfr'] // 5 * 5))
         run.seen(('random', r['ops']), nontrivial=True)
-        cases.append((r['lit'], r['digests'], case))
-    bad = run.model_disagree('random_len40', IMPORTS, 'run_c10', 'list op', cases, shard=100)
+        cases.append((pairl(r['lit'], intsl(r['digests'])), [], case))
+    bad = run.model_disagree('random_len40', IMPORTS, 'run_c10_chk', 'list op * list int', cases, shard=100)
     if bad:
-        explain('random_len40', 'run_c10_pinned', 'list op', cases, bad, 100)
-    run.samples.append(dict(family='random_len40', ops=cases[0][2]['ops'], digests=cases[0][1]))
+        explain('random_len40', 'run_c10_pinned_chk', 'list op * list int', cases, bad, 100)
+    run.samples.append(dict(family='random_len40', ops=cases[0][2]['ops']))
     depth = 4 if run.thorough else 3
 
     run.rule = ('op sequences from the empty heap: exhaustive to length 3 (targets root AND newest handle; thorough: also length %d with '
